@@ -146,6 +146,13 @@ func readerBytes(c *explore.Ctx) {
 			c.Fail("Reader:panic:"+m.name+":"+ps+":"+explore.PanicClass(pv), "%s on % x (%s) panicked: %v", m.name, in, p, pv)
 			return
 		}
+		for rep := 0; rep < 3 && used > budget(len(in)); rep++ { // lazily flushed allocation statistics: only a reproducible excess counts
+			b0 := allocated()
+			explore.Catch(func() { m.call(impl(p).NewReader(bytes.NewReader(in))) })
+			if u := allocated() - b0; u < used {
+				used = u
+			}
+		}
 		if used > budget(len(in)) {
 			c.Fail("Reader:alloc:"+m.name+":"+proto3(p), "%s on %d bytes % x (%s) allocated %d bytes", m.name, len(in), in, p, used)
 		}
